@@ -218,10 +218,13 @@ fn check_sequence(idxs: &[usize], ctx: usize, sep: &str, obs: &mut Obs) {
                         }
                     }
                 }
-                obs.violate(
-                    format!("{}/{}/{cname}/diagnostic/next:{}", kind_of(culprit), pred_of(culprit), next_of(culprit)),
-                    format!("{src:?}: {nerr} diagnostics although every statement parses cleanly alone"),
-                );
+                let mut cell = format!("{}/{}/{cname}/diagnostic/next:{}", kind_of(culprit), pred_of(culprit), next_of(culprit));
+                if cname == "file" && kind_of(culprit) == "empty" {
+                    // the empty statement is only rejected while the item routine is still active
+                    let after = (0..culprit).any(|j| ROUTINE_SWITCHING.contains(&kind_of(j)));
+                    cell.push_str(if after { "/after-routine-switch" } else { "/items-only-before" });
+                }
+                obs.violate(cell, format!("{src:?}: {nerr} diagnostics although every statement parses cleanly alone"));
             }
             obs.class(&format!("context:{cname}"));
             obs.done(expected.len() >= 2);
